@@ -972,7 +972,40 @@ func ruleHD() Rule {
 			// the flag's producers: the variable itself and, when it is bound to a
 			// result of a helper (`delim, quoted := l.heredocDelim(h)`), that result
 			flags := map[types.Object]*core.Func{quotedObj: quotedFn}
-			{
+			type flagAt struct {
+				obj types.Object
+				fn  *core.Func
+			}
+			work := []flagAt{{quotedObj, quotedFn}}
+			for len(work) > 0 && len(flags) < 8 {
+				quotedObj, quotedFn := work[0].obj, work[0].fn
+				work = work[1:]
+				// a parameter of a helper: the variable handed in at every call site
+				if quotedFn.Decl != nil && quotedFn.Type.Params != nil {
+					k, idx := 0, -1
+					for _, fld := range quotedFn.Type.Params.List {
+						for _, nm := range fld.Names {
+							if quotedFn.Info().Defs[nm] == quotedObj {
+								idx = k
+							}
+							k++
+						}
+					}
+					if idx >= 0 {
+						if calls, complete := c.callSitesOf(quotedFn); complete {
+							for _, cs := range calls {
+								if idx < len(cs.call.Args) {
+									if id, ok := ast.Unparen(cs.call.Args[idx]).(*ast.Ident); ok {
+										if o, ok := cs.in.Info().Uses[id].(*types.Var); ok && flags[o] == nil {
+											flags[o] = cs.in
+											work = append(work, flagAt{o, cs.in})
+										}
+									}
+								}
+							}
+						}
+					}
+				}
 				info := quotedFn.Info()
 				ast.Inspect(quotedFn.Root().Body, func(n ast.Node) bool {
 					as, ok := n.(*ast.AssignStmt)
@@ -994,8 +1027,9 @@ func ruleHD() Rule {
 								for _, fld := range h.Type.Results.List {
 									for _, nm := range fld.Names {
 										if k == i {
-											if o := h.Info().Defs[nm]; o != nil {
+											if o := h.Info().Defs[nm]; o != nil && flags[o] == nil {
 												flags[o] = h
+												work = append(work, flagAt{o, h})
 											}
 										}
 										k++
@@ -1005,8 +1039,9 @@ func ruleHD() Rule {
 								h.OwnNodes(func(x ast.Node) bool {
 									if r, ok := x.(*ast.ReturnStmt); ok && i < len(r.Results) {
 										if rid, ok := ast.Unparen(r.Results[i]).(*ast.Ident); ok {
-											if o, ok := h.Info().Uses[rid].(*types.Var); ok && o.Type().String() == "bool" {
+											if o, ok := h.Info().Uses[rid].(*types.Var); ok && o.Type().String() == "bool" && flags[o] == nil {
 												flags[o] = h
+												work = append(work, flagAt{o, h})
 											}
 										}
 									}
@@ -1254,6 +1289,23 @@ func ruleHD6() Rule {
 						if c.callsFunc(info, st, emit) {
 							emits = true
 						}
+						// or hands the token to a helper of the lexer that emits it
+						ast.Inspect(st, func(y ast.Node) bool {
+							call, ok := y.(*ast.CallExpr)
+							if !ok || emits {
+								return !emits
+							}
+							if fo := core.StaticCallee(info, call); fo != nil {
+								if h := c.P.FuncOf(fo); h != nil && h != f && h != emit && h.Decl != nil && h.Body != nil && h.Pkg == f.Pkg {
+									for _, hs := range h.Body.List {
+										if c.callsFunc(h.Info(), hs, emit) {
+											emits = true
+										}
+									}
+								}
+							}
+							return !emits
+						})
 					}
 					if !emits {
 						return true
